@@ -2,7 +2,7 @@
 // A case: one item, forked into 1-3 further branches; a replay sequence in which merge commits are replayed on
 // several branches (same commit, same committer time) and ordinary commits once; committer times monotone along the
 // sequence in half of the cases, arbitrary otherwise.
-// ops: tnew <tick hours> | tfork <src> <dst> | tcons <branch> <commit> <parents> <abs ns> <index>
+// ops: tnew <tick hours> | tfork <src> <dst> | tmerge <branch>... | tcons <branch> <commit> <parents> <abs ns> <index>
 // impl: <tick> | <tick>:[commits] ...      (registry sorted by tick)
 // oracle: every analysed commit is listed under the tick it was given; with monotone times exactly once.
 package main
@@ -165,9 +165,20 @@ func main() {
 			if commits[i].np >= 2 && len(branches) >= 2 {
 				// a merge commit is replayed on several branches, one after the other
 				k := 2 + rng.Intn(len(branches)-1)
-				for _, b := range rng.Perm(len(branches))[:k] {
+				chosen := rng.Perm(len(branches))[:k]
+				for _, b := range chosen {
 					consume(b, i)
 				}
+				// ... and the branches are then merged the way core.mergeItems does it: Merge is called on the first
+				// one with the others.  For the ticks this must change nothing: every branch goes on from the tick it
+				// had reached itself (the model treats `tmerge` as a no-op).
+				others := make([]core.PipelineItem, 0, k-1)
+				for _, b := range chosen[1:] {
+					others = append(others, branches[b])
+				}
+				branches[chosen[0]].Merge(others)
+				fmt.Fprintf(wo, "tmerge %s\n", strings.Trim(fmt.Sprint(chosen), "[]"))
+				fmt.Fprintln(wi, "ok")
 			} else {
 				consume(rng.Intn(len(branches)), i)
 			}
